@@ -88,6 +88,34 @@ class CFG(object):
         except Exception:
             return None
 
+    def _through_identity_wrapper(self, exc):
+        """exc is `self.m(arg)` / `m(arg)` where every return of m returns its first (non-self) parameter: -> arg"""
+        if not (isinstance(exc, ast.Call) and len(exc.args) == 1 and not exc.keywords) or self.idx is None:
+            return None
+        f = exc.func
+        callee = None
+        try:
+            if isinstance(f, ast.Attribute) and isinstance(f.value, ast.Name) and self.func is not None and getattr(self.func, "cls", None) is not None and self.func.node.args.args and f.value.id == self.func.node.args.args[0].arg:
+                callee = self.idx.find_method(self.func.cls, f.attr)
+            elif isinstance(f, ast.Name) and self.mod is not None:
+                r = self.idx.resolve(self.mod, f, self.func)
+                callee = r[1] if r and r[0] == "func" else None
+        except Exception:
+            callee = None
+        node = getattr(callee, "node_orig", None) or getattr(callee, "node", None)
+        if not isinstance(node, ast.FunctionDef):
+            return None
+        params = [a.arg for a in node.args.args]
+        if isinstance(f, ast.Attribute) and params:
+            params = params[1:]
+        if not params:
+            return None
+        rets = [n for n in ast.walk(node) if isinstance(n, ast.Return)]
+        stores = [n for n in ast.walk(node) if isinstance(n, ast.Name) and isinstance(n.ctx, ast.Store) and n.id == params[0]]
+        if rets and not stores and all(isinstance(r_.value, ast.Name) and r_.value.id == params[0] for r_ in rets):
+            return exc.args[0]
+        return None
+
     # ------------------------------------------------------------------ exceptions
     def _pad(self, depth=None):
         """landing pad for an exception of unknown type raised at context depth `depth`"""
@@ -243,8 +271,18 @@ class CFG(object):
                 preds = self._expr(s.exc, preds, raising=True)
                 target = s.exc.func if isinstance(s.exc, ast.Call) else s.exc
                 qual = self._qual(target)
-                if qual is None and isinstance(target, ast.Name):
-                    qual = None
+                if qual is None and isinstance(s.exc, ast.Name):
+                    # raise e  with  e = Err(...)  assigned exactly once in this function (e.g. an inlined helper's result)
+                    defs = [n for n in ast.walk(self.fn) if isinstance(n, ast.Assign) and any(isinstance(t_, ast.Name) and t_.id == s.exc.id for t_ in n.targets)]
+                    others = [n for n in ast.walk(self.fn) if isinstance(n, (ast.AugAssign, ast.For, ast.With, ast.ExceptHandler)) and s.exc.id in {x.id for x in ast.walk(n.target if hasattr(n, "target") else ast.Module(body=[], type_ignores=[])) if isinstance(x, ast.Name)}] if False else []
+                    handlers = [h for h in ast.walk(self.fn) if isinstance(h, ast.ExceptHandler) and h.name == s.exc.id]
+                    if len(defs) == 1 and not handlers and isinstance(defs[0].value, ast.Call):
+                        qual = self._qual(defs[0].value.func)
+                inner = self._through_identity_wrapper(s.exc)
+                if inner is not None:
+                    # raise self.note(Err(...)): a method that hands its argument back; what is raised is the argument
+                    target = inner.func if isinstance(inner, ast.Call) else inner
+                    qual = self._qual(target)
             else:
                 # bare re-raise: the class caught by the enclosing handler
                 for c in reversed(self._ctx):
